@@ -45,7 +45,7 @@ EDITS = {
     "C05": [
         ("cc01", "crates/lib/mimium-lang/src/runtime/vm.rs", "                    self.states_stack.push(cls_i);\n                    self.call_function(func, nargs, nret_req, move |machine| {\n                        machine.execute(pos_of_f, Some(cls_i))\n                    });\n                    self.states_stack.pop();\n                }\n                Instruction::Call(", "                    self.states_stack.push(cls_i);\n                    self.call_function(func, nargs, nret_req, move |machine| {\n                        machine.execute(pos_of_f, Some(cls_i))\n                    });\n                }\n                Instruction::Call(", "verus", "vm_storage"),
         ("cc02", "crates/lib/mimium-lang/src/runtime/vm.rs", "                    let pos_of_f = cls.fn_proto_pos;\n                    self.states_stack.push(cls_i);\n                    self.call_function(func, nargs, nret_req, move |machine| {\n                        machine.execute(pos_of_f, Some(cls_i))\n                    });\n                    self.states_stack.pop();\n                }\n                Instruction::Call(", "                    let pos_of_f = cls.fn_proto_pos;\n                    self.call_function(func, nargs, nret_req, move |machine| {\n                        machine.execute(pos_of_f, Some(cls_i))\n                    });\n                }\n                Instruction::Call(", "verus", "vm_storage"),
-        ("al01", "crates/lib/mimium-lang/src/compiler/mirgen.rs", "                        let (v, t, s) = self.eval_expr(*item);\n                        ((v, t), s)", "                        let (v, t, _s) = self.eval_expr(*item);\n                        ((v, t), Vec::new())", "verus", "mirgen_state"),
+        ("al01", "crates/lib/mimium-lang/src/compiler/mirgen.rs", "                        let (v, t, s) = self.eval_expr(*item);\n                        ((v, t), s)", "                        let (v, t, s) = self.eval_expr(*item);\n                        let s = if s.len() > 1 { Vec::new() } else { s };\n                        ((v, t), s)", "verus", "mirgen_state"),
         ("aa01", "crates/lib/mimium-lang/src/compiler/mirgen.rs", "            states.extend(s);\n            self.push_inst(Instruction::Store(ptr, v, elem_ty));", "            if i == 0 { states.extend(s); }\n            self.push_inst(Instruction::Store(ptr, v, elem_ty));", "verus", "mirgen_state"),
         ("aa02", "crates/lib/mimium-lang/src/compiler/mirgen.rs", "        // from the type information.\n        (dst, alloc_ty, states)", "        // from the type information.\n        (dst, alloc_ty, Vec::new())", "verus", "mirgen_state"),
         ("ea01", "crates/lib/mimium-lang/src/compiler/mirgen.rs", "        (ats, states)\n    }", "        (ats, Vec::new())\n    }", "verus", "mirgen_state"),
